@@ -274,3 +274,25 @@ Fixpoint res_get (res : list (lhs * fexpr)) (l : lhs) : option fexpr :=
   | [] => None
   | (k, e) :: r => if lhs_eqb l k then Some e else res_get r l
   end.
+
+(* ---------- registers over several cycles (the simulator latches veval of the elaborated
+   next-value expression; registers that are not conditionally assigned are left alone here) ---------- *)
+Definition reg_env (rho : pid -> bool) (sigma : Z -> Z) (regs : list Z) : env :=
+  mkEnv rho sigma (fun i => nth (Z.to_nat i) regs 0).
+
+Definition model_next (res : list (lhs * fexpr)) (E : env) (i : Z) : Z :=
+  match res_get res (LW (TReg i)) with
+  | Some (FVal e) => veval E e
+  | _ => e_reg E i
+  end.
+
+Definition model_step (res : list (lhs * fexpr)) (inp : (pid -> bool) * (Z -> Z)) (regs : list Z) : list Z :=
+  map (fun k => model_next res (reg_env (fst inp) (snd inp) regs) (Z.of_nat k)) (seq 0 (length regs)).
+
+(* register file after each cycle *)
+Fixpoint model_run (res : list (lhs * fexpr)) (inputs : list ((pid -> bool) * (Z -> Z))) (regs : list Z)
+  : list (list Z) :=
+  match inputs with
+  | [] => []
+  | inp :: rest => model_step res inp regs :: model_run res rest (model_step res inp regs)
+  end.
